@@ -80,15 +80,16 @@ class C12Engine(SimEngine):
 
 
 def _sweep(tier: str):
-    from .simprop import close_overlap_family, flush_raises_family
-    cases = close_overlap_family(thin=8 if tier == "quick" else 1) + flush_raises_family(thin=3 if tier == "quick" else 1)
+    from .simprop import abandon_then_close_family, close_overlap_family, flush_raises_family
+    cases = (close_overlap_family(thin=8 if tier == "quick" else 1) + flush_raises_family(thin=3 if tier == "quick" else 1)
+             + abandon_then_close_family(thin=2 if tier == "quick" else 1))
     return ("close-overlap family: gather_and_close()/flush() blocked on a task in a slow callback while one of the other workers fails, "
-            "returns or is let go in every order (ticks a,b in 0..2, c in 0..1, gates k in 0..3, k2 in 0..2, both return_exceptions values); plus the flush-raises family", cases, len(cases))
+            "returns or is let go in every order (ticks a,b in 0..2, c in 0..1, gates k in 0..3, k2 in 0..2, both return_exceptions values); plus the flush-raises and abandon-then-close families", cases, len(cases))
 
 
 def _engine() -> C12Engine:
     prof = profile(p_worker_raise=0.45, p_cb_raise=0.3, p_callfault=0.25, p_cb=0.7, sizes=[1, 2, 2, 3, None], p_iter_raise=0.08, p_bad_return=0.05,
-                   ops={"flush": 2, "close": 0, "spawn": 9, "gate": 8, "cancel": 1, "cancel_group": 0.5, "lock": 0.2, "stop": 0.5},
+                   ops={"flush": 2, "close": 0, "spawn": 9, "gate": 8, "cancel": 1, "cancel_group": 0.5, "lock": 0.2, "stop": 0.5, "abandon": 0.6},
                    end_with_close=0.5)
     return C12Engine(
         "C12",
